@@ -15,7 +15,9 @@
 #include "vf/sched.hpp"
 #include "vf/trace.hpp"
 
+#include <algorithm>
 #include <memory>
+#include <random>
 #include <set>
 
 using Q = iora::core::BlockingQueue<int>;
@@ -198,6 +200,9 @@ static int cmdDfs(int argc, char **argv)
   {
     if ((int)wave.size() > maxExec - total)
     {
+      // truncation keeps a seeded random sample of the frontier (not its first entries), so that late preemption points
+      // are explored as often as early ones
+      std::shuffle(wave.begin(), wave.end(), std::mt19937(12345u + (unsigned)total));
       wave.resize(maxExec - total);
       truncated = true;
     }
